@@ -28,6 +28,95 @@ from ..report import Check
 M = "xknx.secure.keyring"
 
 
+class HandlerEval:
+    """evaluates the content handler's methods on symbolic SAX events; records what is appended to `self.output`.
+    Fragment: expression statements calling self.output.append / extend / self.append_string, `for k, v in
+    sorted(attrs.items())`, `if x [not] in self._attribute_blacklist`, `isinstance(value, str)` / `.encode('utf-8')`,
+    simple assignments."""
+
+    def __init__(self, repo: Repo, cls, blacklist: tuple) -> None:
+        self.repo, self.cls, self.blacklist = repo, cls, blacklist
+
+    def call(self, name: str, args: list) -> list:
+        fn = self.cls.methods[name].node
+        env = dict(zip([a.arg for a in fn.args.args[1:]], args))
+        trace: list = []
+        self.block(fn.body, env, trace)
+        return trace
+
+    def ev(self, e: ast.AST, env: dict):
+        if isinstance(e, ast.Constant):
+            return e.value
+        if isinstance(e, ast.Name):
+            if e.id in env:
+                return env[e.id]
+            raise AnalysisError(f"KeyringSAXContentHandler: name {e.id} outside the fragment")
+        if isinstance(e, ast.Attribute) and ast.unparse(e) == "self._attribute_blacklist":
+            return self.blacklist
+        if isinstance(e, ast.Attribute) and ast.unparse(e) == "self.hashed_password":
+            return ("sym", "hashed_password")
+        if isinstance(e, ast.Call):
+            n = call_name(e)
+            if n == "sorted" and len(e.args) == 1:
+                return sorted(self.ev(e.args[0], env))
+            if n.endswith(".items") and not e.args:
+                return list(self.ev(e.func.value, env).items())  # type: ignore[attr-defined]
+            if n == "isinstance" and len(e.args) == 2:
+                v = self.ev(e.args[0], env)
+                return isinstance(v, str) if ast.unparse(e.args[1]) == "str" else (isinstance(v, tuple) if ast.unparse(e.args[1]) == "bytes" else False)
+            if n.endswith(".encode") and e.args and self.ev(e.args[0], env) in ("utf-8", "utf8"):
+                v = self.ev(e.func.value, env)  # type: ignore[attr-defined]
+                return ("utf8", v)
+            if n == "base64.b64encode" and len(e.args) == 1:
+                v = self.ev(e.args[0], env)
+                return ("raw", f"b64({v[1]})") if isinstance(v, tuple) else ("raw", f"b64({v})")
+            if n == "len" and len(e.args) == 1:
+                v = self.ev(e.args[0], env)
+                return ("len", v[1] if isinstance(v, tuple) else v)
+            raise AnalysisError(f"KeyringSAXContentHandler: call {n} outside the fragment")
+        if isinstance(e, ast.Compare) and len(e.ops) == 1 and isinstance(e.ops[0], (ast.In, ast.NotIn)):
+            r = self.ev(e.left, env) in self.ev(e.comparators[0], env)
+            return r if isinstance(e.ops[0], ast.In) else not r
+        if isinstance(e, ast.UnaryOp) and isinstance(e.op, ast.Not):
+            return not self.ev(e.operand, env)
+        raise AnalysisError(f"KeyringSAXContentHandler: expression {type(e).__name__} outside the fragment")
+
+    def block(self, stmts, env: dict, trace: list) -> None:
+        for st in stmts:
+            if isinstance(st, ast.Expr):
+                if isinstance(st.value, ast.Constant):
+                    continue
+                c = st.value
+                if not isinstance(c, ast.Call):
+                    raise AnalysisError("KeyringSAXContentHandler: expression statement")
+                n = call_name(c)
+                if n == "self.output.append":
+                    v = self.ev(c.args[0], env)
+                    trace.append(("byte", v) if isinstance(v, int) else v)
+                elif n == "self.output.extend":
+                    trace.append(self.ev(c.args[0], env))
+                elif n == "self.append_string":
+                    sub = self.cls.methods["append_string"].node
+                    self.block(sub.body, {sub.args.args[1].arg: self.ev(c.args[0], env)}, trace)
+                elif n == "super().__init__":
+                    continue
+                else:
+                    raise AnalysisError(f"KeyringSAXContentHandler: call {n}")
+                continue
+            if isinstance(st, ast.Assign) and len(st.targets) == 1 and isinstance(st.targets[0], ast.Name):
+                env[st.targets[0].id] = self.ev(st.value, env)
+                continue
+            if isinstance(st, ast.If):
+                self.block(st.body if self.ev(st.test, env) else st.orelse, env, trace)
+                continue
+            if isinstance(st, ast.For) and isinstance(st.target, ast.Tuple) and len(st.target.elts) == 2:
+                for k, v in self.ev(st.iter, env):
+                    env[st.target.elts[0].id], env[st.target.elts[1].id] = k, v  # type: ignore[attr-defined]
+                    self.block(st.body, env, trace)
+                continue
+            raise AnalysisError(f"KeyringSAXContentHandler: statement {type(st).__name__} outside the fragment")
+
+
 def run(chk: Check, repo: Repo) -> None:
     h = repo.cls(M, "KeyringSAXContentHandler")
     bl = repo.const(h, "_attribute_blacklist")
@@ -37,40 +126,24 @@ def run(chk: Check, repo: Repo) -> None:
         raise AnalysisError("KeyringSAXContentHandler methods vanished")
     for f in (se, ee, ed, ap):
         chk.unit(f)
-    # startElement: marker, name, then per attribute (sorted, filtered) name and value
-    body = [s for s in se.node.body if not (isinstance(s, ast.Expr) and isinstance(s.value, ast.Constant))]
-    name_p, attrs_p = se.node.args.args[1].arg, se.node.args.args[2].arg
-    ok_marker = len(body) >= 3 and isinstance(body[0], ast.Expr) and ast.unparse(body[0].value) == "self.output.append(1)"
-    ok_name = len(body) >= 3 and isinstance(body[1], ast.Expr) and ast.unparse(body[1].value) == f"self.append_string({name_p})"
-    chk.ob("element-start-and-name-are-signed", se.site(), ok_marker and ok_name, f"startElement begins with `{ast.unparse(body[0]) if body else '?'}` and `{ast.unparse(body[1]) if len(body) > 1 else '?'}`", key="sig|start")
-    loops = [s for s in body if isinstance(s, ast.For)]
-    ok_loop = False
-    detail = "no attribute loop"
-    if len(loops) == 1:
-        lp = loops[0]
-        it = ast.unparse(lp.iter)
-        tg = [ast.unparse(x) for x in lp.target.elts] if isinstance(lp.target, ast.Tuple) else []
-        inner = lp.body
-        if len(inner) == 1 and isinstance(inner[0], ast.If) and not inner[0].orelse:
-            test = ast.unparse(inner[0].test)
-            app = [ast.unparse(s.value) for s in inner[0].body if isinstance(s, ast.Expr)]
-            ok_loop = it == f"sorted({attrs_p}.items())" and len(tg) == 2 and test == f"{tg[0]} not in self._attribute_blacklist" and app == [f"self.append_string({tg[0]})", f"self.append_string({tg[1]})"]
-            detail = f"for {tg} in {it}: if {test}: {app}"
-        else:
-            detail = f"loop body {[type(x).__name__ for x in inner]}"
-    chk.ob("every-attribute-name-and-value-is-signed", se.site(), ok_loop, f"startElement: {detail}", key="sig|attrs")
-    eb = [s for s in ee.node.body if not (isinstance(s, ast.Expr) and isinstance(s.value, ast.Constant))]
-    chk.ob("element-end-is-signed", ee.site(), len(eb) == 1 and ast.unparse(eb[0]) == "self.output.append(2)", f"endElement: {[ast.unparse(x) for x in eb]}", key="sig|end")
-    db = [s for s in ed.node.body if not (isinstance(s, ast.Expr) and isinstance(s.value, ast.Constant))]
-    chk.ob("password-hash-is-signed", ed.site(), len(db) == 1 and ast.unparse(db[0]) == "self.append_string(base64.b64encode(self.hashed_password))", f"endDocument: {[ast.unparse(x) for x in db]}", key="sig|password")
+    # abstract evaluation of the handler on symbolic SAX events: the trace of what enters `self.output`
+    attrs = [("zeta", "<v:zeta>"), ("Signature", "<v:Signature>"), ("alpha", "<v:alpha>"), ("xmlns", "<v:xmlns>"), ("Xattr", "<v:Xattr>")]
+    want_attrs = sorted(a for a in attrs if a[0] not in ("xmlns", "Signature"))
+    ev_ = HandlerEval(repo, h, tuple(bl) if isinstance(bl, tuple) else ())
+    t_start = ev_.call("startElement", ["<name>", dict(attrs)])
+    want = [("byte", 1), ("len", "<name>"), ("utf8", "<name>")]
+    for k, v in want_attrs:
+        want += [("len", k), ("utf8", k), ("len", v), ("utf8", v)]
+    chk.ob("element-start-name-and-attributes-are-signed", se.site(), t_start == want, f"startElement(<name>, {{zeta, Signature, alpha, xmlns, Xattr}}) appends {t_start}; required {want} (marker, name, then name and value of every attribute but xmlns/Signature in sorted order, each length-prefixed)", key="sig|start")
+    t_end = ev_.call("endElement", ["<name>"])
+    chk.ob("element-end-is-signed", ee.site(), t_end == [("byte", 2)], f"endElement appends {t_end}", key="sig|end")
+    t_doc = ev_.call("endDocument", [])
+    chk.ob("password-hash-is-signed", ed.site(), t_doc == [("len", "b64(hashed_password)"), ("raw", "b64(hashed_password)")], f"endDocument appends {t_doc}", key="sig|password")
     ini = h.methods["__init__"]
     pw = ini.node.args.args[1].arg
-    chk.ob("password-hash-is-signed", ini.site(), any(isinstance(s, ast.Assign) and ast.unparse(s.targets[0]) == "self.hashed_password" and ast.unparse(s.value) == f"hash_keyring_password({pw}.encode('utf-8'))" for s in walk_local(ini.node)), "hashed_password = hash_keyring_password(<given password>)", key="sig|password-src")
-    # append_string: length prefix + the octets themselves
-    asrc = [ast.unparse(s) for s in ap.node.body if not (isinstance(s, ast.Expr) and isinstance(s.value, ast.Constant))]
-    vp = ap.node.args.args[1].arg
-    ok = asrc[-2:] == [f"self.output.append(len({vp}))", f"self.output.extend({vp})"] and any(f"{vp} = {vp}.encode('utf-8')" in x for x in asrc)
-    chk.ob("strings-enter-the-hash-with-length-prefix", ap.site(), ok, f"append_string: {asrc[-2:]}", key="sig|append")
+    hp = [s_ for s_ in walk_local(ini.node) if isinstance(s_, ast.Assign) and ast.unparse(s_.targets[0]) == "self.hashed_password"]
+    ok = len(hp) == 1 and isinstance(hp[0].value, ast.Call) and call_name(hp[0].value) == "hash_keyring_password" and any(isinstance(x, ast.Name) and x.id == pw for x in ast.walk(hp[0].value))
+    chk.ob("password-hash-is-signed", ini.site(), ok, "hashed_password = hash_keyring_password(<the given password>)", key="sig|password-src")
     ws = sorted({w.func.qualname for w in attr_writes(repo, "output") if w.func.module.name == M})
     chk.ob("only-the-handler-writes-the-signed-octets", ap.site(), set(ws) <= {"KeyringSAXContentHandler.__init__", "KeyringSAXContentHandler.startElement", "KeyringSAXContentHandler.endElement", "KeyringSAXContentHandler.append_string"}, f"writers of `output`: {ws}", key="sig|writers")
     # (b) verify
